@@ -317,6 +317,10 @@ def r10_comparison_does_not_write_state(ctx):
                             verdicts.append(('fresh' if fresh else 'unknown', 'RuntimeState.%s' % v.func.attr))
                         elif all(tx.startswith('copy.deepcopy(') for tx in txts) and rets:
                             verdicts.append(('fresh', 'deep copy'))
+                        elif rets and all(isinstance(r.value, (ast.Dict, ast.DictComp)) or (isinstance(r.value, ast.Call) and ast.unparse(r.value.func) in ('dict', 'OrderedDict', 'collections.OrderedDict'))
+                                          for r in rets):
+                            # a new dictionary object is built in the return expression itself
+                            verdicts.append(('fresh', 'RuntimeState.%s returns a new dictionary' % v.func.attr))
                         else:
                             verdicts.append(('unknown', 'RuntimeState.%s' % v.func.attr))
                     elif isinstance(v, ast.Name) and v.id == 'runstate':
